@@ -12,7 +12,8 @@ CLAIMED = {
         text="Coq theorems (templates_all_ok, every_template_pass_sound, parallel_decomposer_sound, fused_window_sound, "
              "clifford_candidate_sound, rotation_normalisation_preserves_action; native: native_templates_all_ok, "
              "native_parallel_decomposer_sound, u1q_normalize_branch_sound, cnotrz2rzz_pass_sound, "
-             "ionq_native_equals_output_then_frame, ionq_native_preserves_measurement_statistics): every "
+             "ionq_native_equals_output_then_frame, ionq_native_preserves_measurement_statistics, "
+             "pauli_rotation_decomposition_is_the_rotation (Pauli strings of any length), snapped_rotation_is_the_named_gates): every "
              "GateKindDecomposer template regenerated from /repo - including the Quantinuum/IonQ native ones over the "
              "documented U1q/ZZ/RZZ/XX/GPi/GPi2/MS matrices - implements its target gate up to a global phase for "
              "all real angles, all placements on distinct qubits and circuits of any length; the CNOTRZ2RZZ sliding "
@@ -27,7 +28,7 @@ CLAIMED = {
         note="Trusted: Coq kernel+vm_compute; Reals axioms + functional_extensionality_dep; translate/templates.py, "
              "translate/native.py; documented matrices of gates.py and of the native gate docstrings as spec (IonQ phases "
              "in turns, MS phi0 on its first target); numpy oracle. Partial: KAK/SU2 numeric bodies (self-validating "
-             "since fix 8e85f3f), Pauli-string decomposers and epsilon-snapping are decided by the sweep only.",
+             "since fix 8e85f3f) are decided by the sweep only; snapping tests |theta-K|<eps are idealised to theta=K.",
         technique="Coq proof over regenerated templates/branches/rows (vm_compute reflection into an n-qubit operator "
                   "semantics; frame invariant by induction over the circuit) + correspondence + numpy differential sweep"),
     "C06": dict(
@@ -122,11 +123,14 @@ CLAIMED = {
              "is symmetric. The model (generic in the coefficient type) is run on exact rationals by vm_compute against "
              "the real get_derivatives (first and second order), LinearParameterMapping.get_derivatives and the shifted "
              "raw vectors; a numpy sweep compares the real gradient/Hessian/numerical-gradient estimators with "
-             "generator-insertion derivatives.",
-        design_ref="DESIGN.md section 4 (C09)",
+             "generator-insertion derivatives. circuit_expectation_is_a_trigonometric_tree / "
+             "circuit_expectation_parameter_shift_exact: the expectation value of any circuit of fixed linear gates and "
+             "rotations about Pauli strings (RX, RY, RZ, PauliRotation), any state, any linear observable, any register, "
+             "IS of that form in the raw gate angles, so the parameter-shift derivative of circuit expectation values is exact.",
+        design_ref="DESIGN.md section 4 (C09), 9.2",
         note="Trusted: Coq kernel; Reals axioms + functional_extensionality_dep; correspondence harness; AST fingerprints. "
-             "Modelled, not verified: that circuit expectation values have sinusoidal form in each raw angle (G^2=I), the "
-             "exact estimator, float rounding.",
+             "Modelled, not verified: the exact estimator (that it returns the expectation value of the bound circuit), float "
+             "rounding.",
         technique="Coq real-analysis proof (derivable_pt_lim, induction over trigonometric-polynomial trees and shift "
                   "objects) + exact rational vm_compute correspondence + numpy differential sweep"),
     "C10": dict(
@@ -334,19 +338,22 @@ CLAIMED = {
                   "by vm_compute) + vm_compute correspondence + dense numpy sweep"),
     "C03": dict(
         category="proof",
-        text="Coq theorems (qulacs_conv_rows_ok, qulacs_convert_gate_sound): the Qulacs gate that convert_gate builds "
-             "for every modelled gate kind - obtained by symbolic evaluation of the adapter source on every run and read "
-             "through the documented Qulacs conventions - acts as the library gate up to a global phase for all real "
-             "angles (RX/RY/RZ sign flips) and all placements (control/target order). The symbolic evaluation is "
-             "validated against the real convert_gate and the conventions against the installed Qulacs on every run; "
-             "all seven adapters in both directions are swept against each backend's own simulator. Four defects found "
-             "by this check were repaired (fix: commits), two tket ones are known findings.",
-        design_ref="DESIGN.md section 4 (C03)",
-        note="Trusted: Coq kernel+vm_compute; Reals axioms + funext; translate/adapters.py; the Qulacs contract table "
-             "(validated, not assumed). Partial: Rust convert_circuit, parametric/compiled circuits, matrix and Pauli "
-             "gates and the other six adapters have no theorem (backend-simulator sweep only).",
-        technique="Coq proof over a conversion table regenerated by symbolic evaluation of the adapter + validated "
-                  "backend contract + backend-simulator sweep"),
+        text="Coq theorems (qulacs_/cirq_/braket_/qiskit_convert_gate_sound with their *_conv_rows_ok and *_conv_total): the "
+             "backend gate that each of the four forward converters builds for every modelled gate kind - obtained by "
+             "fail-closed symbolic evaluation of the adapter source on every run; backend gates read through contract tables, "
+             "matrices defined by the converters themselves (Cirq U1/U2/U3 classes, literal SqrtY matrices) translated entry by "
+             "entry - acts as the library gate up to a global phase for all real angles and all placements (qubit orders, "
+             "sign and argument conventions). The symbolic evaluations are validated against the real converters and the "
+             "contracts against the installed backends' own matrices on every run; all seven adapters in both directions are "
+             "swept against each backend's simulator. Four defects found by this check were repaired (fix: commits), two "
+             "tket ones are known findings.",
+        design_ref="DESIGN.md section 4 (C03), 9.2",
+        note="Trusted: Coq kernel+vm_compute; Reals axioms + funext; translate/adapters.py, cirq_adapter.py, "
+             "braket_adapter.py, qiskit_adapter.py; the contract tables (validated each run, not assumed). Partial: Rust "
+             "convert_circuit, parametric/compiled circuits, matrix and Pauli gates, reverse conversions and the tket / "
+             "Stim / OpenQASM adapters have no theorem (backend-simulator sweep only).",
+        technique="Coq proof over conversion tables regenerated by symbolic evaluation of the adapters + validated "
+                  "backend contracts + backend-simulator sweep"),
     "C07": dict(
         category="proof",
         text="Coq theorems: the rotation gates of the measurement circuit (regenerated from /repo) satisfy V P = "
@@ -356,11 +363,13 @@ CLAIMED = {
              "qubit-wise because the accumulated mask decides commutation with all members. Models are tied to the "
              "code by vm_compute correspondence and fingerprints; a dense sweep checks <b|V P V^dagger|b> against the "
              "reconstructor for all b, all grouping strategies and the cached factory. bitwise_pauli_grouping with its special groups and individual grouping: bitwise_grouping_partitions_the_labels, "
-             "bitwise_grouping_members_commute.",
-        design_ref="DESIGN.md section 4 (C07)",
+             "bitwise_grouping_members_commute. exact_outcome_distribution_gives_the_expectation_value: the measurement circuit is "
+             "an isometry (its gates are unitary, checked in Z[w]) and the mean of the reconstructed eigenvalue under the exact "
+             "outcome distribution of the measured state is <psi|P|psi> for every state on a register of any size.",
+        design_ref="DESIGN.md section 4 (C07), 9.2",
         note="Trusted: Coq kernel+vm_compute; Reals axioms + funext (measurement theorem); translate/tables.py; "
              "correspondence harness. Partial: special all-X/Y/Z and identity groups, individual grouping, cached "
-             "factory, unitarity of V and the reconstructor's popcount arithmetic are decided by the sweep.",
+             "factory are decided by the sweep.",
         technique="Coq proof (induction over the Pauli map with commutation lemmas from vm_compute obligations; "
                   "bit-extensionality on N; invariant of the greedy insertion) + vm_compute correspondence + dense sweep"),
 }
